@@ -192,6 +192,10 @@ func cmdC07(args []string) {
 			for i := 0; i < 3; i++ {
 				base = append(base, fmt.Sprintf("del %d %s %s", nsid, hn, hx(g.key())))
 				base = append(base, fmt.Sprintf("set %d %s %s %s %d", nsid, hn, hx(g.key()), hx(g.val()), 2000000000+i))
+				// bottom- and middle-priority inserts descend through union's recursion instead
+				base = append(base, fmt.Sprintf("set %d %s %s %s %d", nsid, hn, hx(g.key()), hx(g.val()), i))
+				base = append(base, fmt.Sprintf("set %d %s %s %s %d", nsid, hn, hx(g.key()), hx(g.val()), g.r.Intn(1<<31)))
+				base = append(base, fmt.Sprintf("del %d %s %s", nsid, hn, hx(g.key())))
 			}
 			base = append(base, fmt.Sprintf("totals %d %s", nsid, hn), fmt.Sprintf("shape %d %s", nsid, hn), fmt.Sprintf("dump %d", nsid))
 			break
